@@ -60,6 +60,22 @@ impl Ctx {
             results.push((format!("{name}->armor->verify"), re.map(|d| d.verify(&pk, payload).is_ok()).unwrap_or(false)));
             let re = ds.to_bytes().ok().and_then(|b| DetachedSignature::from_bytes(&b[..]).ok());
             results.push((format!("{name}->bytes->verify"), re.map(|d| d.verify(&pk, payload).is_ok()).unwrap_or(false)));
+            // the same signature packet in front of a literal data packet (prefixed, not one-pass: what older
+            // implementations write; the builder never does): Message::verify must accept it as well
+            for mode in if text { vec![b't', b'u', b'b'] } else { vec![b'b'] } {
+                let r = guarded(|| -> Option<bool> {
+                    let mut msg = pgp::packet::Packet::from(sig.clone()).to_bytes().ok()?;
+                    let mut body = vec![mode, 0, 0, 0, 0, 0]; body.extend_from_slice(payload);
+                    msg.push(0xC0 | 11);
+                    let n = body.len();
+                    if n < 192 { msg.push(n as u8); } else if n < 8384 { msg.push(((n - 192) >> 8) as u8 + 192); msg.push(((n - 192) & 0xff) as u8); } else { msg.push(255); msg.extend((n as u32).to_be_bytes()); }
+                    msg.extend_from_slice(&body);
+                    let mut m = Message::from_bytes(&msg[..]).ok()?;
+                    let mut o = Vec::new(); m.read_to_end(&mut o).ok()?;
+                    Some(o == payload && m.verify(&pk).is_ok())
+                });
+                results.push((format!("{name}->prefixed message (literal mode {})->verify", mode as char), r.ok().flatten().unwrap_or(false)));
+            }
             if text {
                 // the CRLF form of the document verifies too
                 let crlf: Vec<u8> = { let mut o = Vec::new(); let mut p = false; for &b in payload { if b == 10 && !p { o.push(13); } o.push(b); p = b == 13; } o };
@@ -199,6 +215,14 @@ fn main() {
                 cx.matrix(key, true, &s, "window-edge-text");
             }
         }
+    }
+    // payloads longer than the readers' 8 KiB buffers: every block after the first must be hashed too
+    for (i, n) in [8192usize, 8193, 16384 + 7, 20011].into_iter().enumerate() {
+        let mut s: Vec<u8> = (0..n).map(|j| if j % 61 == 60 { b'\n' } else { b'a' + (j % 23) as u8 }).collect();
+        *s.last_mut().unwrap() = if i % 2 == 0 { b'\n' } else { b'z' };
+        let key = [&k_ed4, &k_ed6][i % 2];
+        cx.matrix(key, true, &s, "beyond-8k-text");
+        cx.matrix(key, false, &s, "beyond-8k-binary");
     }
     // caller-chosen hash algorithms (other than the key's preferred one): v6 salts follow the hash actually used
     for (ki, key) in [&k_ed4, &k_ed6, &k_ec, &k_rsa, &k_448].into_iter().enumerate() {
